@@ -1,6 +1,7 @@
 package main
 
 import (
+	"sort"
 	"os"
 	"fmt"
 	"go/token"
@@ -218,6 +219,13 @@ func runC08(p *Prog, l *Ledger) {
 		var bad1, bad2, bad3 []string
 		npaths := 0
 		sawSignal := false
+		// outcome of every path that compared the control signal with thresholds: class and the bounds it established
+		type region struct {
+			class          string // raise | lower | unchanged
+			uppers, lowers map[ssa.Value]bool
+			where          string
+		}
+		regions := map[string]*region{}
 		_, trunc := EnumPaths(af.Fn, 400000, func(pa *Path) bool {
 			if !pa.IsReturn() {
 				return true
@@ -331,11 +339,59 @@ func runC08(p *Prog, l *Ledger) {
 					}
 				}
 			}
+			if len(signalRels) > 0 {
+				rg := &region{class: "unchanged", uppers: map[ssa.Value]bool{}, lowers: map[ssa.Value]bool{}}
+				for _, s := range af.Stores {
+					if pa.Contains(s.Instr) {
+						rg.class = c08Outcome(p, pr, af, roles, s.Val)
+					}
+				}
+				sig := rg.class
+				for _, r := range signalRels {
+					t := strip(r.Y, true)
+					switch r.Op {
+					case token.LSS, token.LEQ:
+						rg.uppers[t] = true
+						sig += fmt.Sprintf("|<%p", t)
+					case token.GTR, token.GEQ:
+						rg.lowers[t] = true
+						sig += fmt.Sprintf("|>%p", t)
+					}
+				}
+				if regions[sig] == nil {
+					rg.where = joinWitness(p.DescribePath(pa))
+					regions[sig] = rg
+				}
+			}
 			return len(bad1) < 3 && len(bad2) < 3 && len(bad3) < 3
 		})
 		if trunc {
 			l.Unknown("O1", key, p.FuncPos(af.Fn), "path enumeration truncated")
 			continue
+		}
+		// outcomes must be ordered like the regions of the control signal: a path that leaves the estimate unchanged (or
+		// lowers it) in a region BELOW one where another path raises it (resp. leaves it unchanged) makes the limit grow with latency
+		rank := map[string]int{"raise": 2, "unchanged": 1, "lower": 0}
+		var sigs []string
+		for k := range regions {
+			sigs = append(sigs, k)
+		}
+		sort.Strings(sigs)
+		for _, ka := range sigs {
+			for _, kb := range sigs {
+				a, b := regions[ka], regions[kb]
+				ra, okA := rank[a.class]
+				rb, okB := rank[b.class]
+				if !okA || !okB || ra >= rb {
+					continue
+				}
+				// a's outcome is smaller than b's: a's region must not lie below b's
+				for t := range a.uppers {
+					if b.lowers[t] && len(bad2) < 3 {
+						bad2 = append(bad2, fmt.Sprintf("the estimate is %s where the queue estimate is below a threshold (%s) but %s where it is above it (%s): more latency means more limit", regionVerb(a.class), a.where, regionVerb(b.class), b.where))
+					}
+				}
+			}
 		}
 		l.Count("paths", npaths)
 		// the control signal itself (Vegas): the value compared with the thresholds is non-decreasing in rtt — established
@@ -668,3 +724,13 @@ func c08Outcome(p *Prog, pr *prover, af *algoFn, roles map[int]string, stored ss
 }
 
 var _ = types.Typ
+
+func regionVerb(class string) string {
+	switch class {
+	case "raise":
+		return "raised"
+	case "lower":
+		return "lowered"
+	}
+	return "left unchanged"
+}
